@@ -266,3 +266,56 @@ def _group_cases():
 
 
 contract('bycycle.objs.fit.BycycleGroup.fit', cases=_group_cases(), modifies=['self', 'self.thresholds'])
+
+
+# ------------------------------------------------------------------------------------------------ Bycycle.recompute_edges, load (C14)
+RCE = 'bycycle.burst.utils.recompute_edges'
+RTH = 'bycycle.objs.fit.BycycleBase.reduce_thresholds'
+
+
+def _obj_rce_cases():
+    from .burst import EDGE_COLS
+    out = []
+    for centre, marker in (('peak', 'sample_peak'), ('trough', 'sample_trough')):
+        cols = dict(EDGE_COLS)
+        cols[marker] = INT
+        for lbl, rt in (('None', 'none'), ('number', REAL)):
+            red = '0' if lbl == 'None' else 'reduction'
+            th_keys = [k for k in TK_CYCLES if k.endswith('threshold')]
+            attrs = {'thresholds': ('dict', ALL_TK), 'df_features': ('frame', cols, 3)}
+            out.append(dict(
+                label='%s,reduction=%s' % (centre, lbl),
+                params={'self': ('obj', 'bycycle.objs.fit.Bycycle', attrs), 'reduction': rt},
+                requires=["forall(j, 0 <= j < len(self.df_features), self.df_features['period'][j] > 0)",
+                          # an object fitted with burst_method='cycles' carries the consistency thresholds only
+                          "not present(self.thresholds, 'burst_fraction_threshold')"],
+                raises={'ValueError': " or ".join(
+                    "(present(self.thresholds, '%s') and (value(self.thresholds, '%s') - %s < 0 or value(self.thresholds, '%s') - %s > 1))"
+                    % (k, k, red, k, red) for k in th_keys) +
+                    " or (present(self.thresholds, 'min_n_cycles') and value(self.thresholds, 'min_n_cycles') < 0)" +
+                    # a missing threshold falls back to the functional default, which is inside [0, 1]
+                    ""},
+                ensures=[
+                    # C14: recompute_edges(r) IS the functional edge recomputation of the stored table with every *_threshold
+                    # lowered by r (and min_n_cycles unchanged); its result replaces the stored table
+                    "self.df_features is call_result('%s')" % RCE,
+                    "call_arg('%s', 'df_features') is old(self.df_features)" % RCE,
+                    "call_arg('%s', 'threshold_kwargs') is call_result('%s')" % (RCE, RTH),
+                ] + ["present(call_arg('%s', 'threshold_kwargs'), '%s') == present(self.thresholds, '%s')" % (RCE, k, k) for k in TK_CYCLES] +
+                    ["implies(present(self.thresholds, '%s'), same(value(call_arg('%s', 'threshold_kwargs'), '%s'), value(self.thresholds, '%s') - %s))"
+                     % (k, RCE, k, k, red) for k in th_keys] +
+                    ["implies(present(self.thresholds, 'min_n_cycles'), value(call_arg('%s', 'threshold_kwargs'), 'min_n_cycles') == "
+                     "value(self.thresholds, 'min_n_cycles'))" % RCE]))
+    return out
+
+
+contract('bycycle.objs.fit.Bycycle.recompute_edges', cases=_obj_rce_cases(), modifies=['self'])
+
+contract(
+    'bycycle.objs.fit.Bycycle.load',
+    params={'self': ('obj', 'bycycle.objs.fit.Bycycle', {'df_features': 'none', 'sig': 'none', 'fs': 'none', 'f_range': 'none'}),
+            'df_features': ('frame', {'is_burst': BOOL}), 'sig': ('arr', REAL), 'fs': REAL, 'f_range': ('tuple', [REAL, REAL])},
+    # C14: load stores exactly what it is given (the objects themselves)
+    ensures=["self.df_features is df_features and self.sig is sig", "same(self.fs, fs) and same(self.f_range, f_range)"],
+    modifies=['self'],
+)
